@@ -10,6 +10,8 @@ Open Scope Z_scope.
 Definition bytes := list Z.
 Definition blen (b : bytes) : Z := Z.of_nat (List.length b).
 
+Definition is_bytes (b : bytes) : Prop := Forall (fun x => 0 <= x < 256) b.
+
 (* b[lo:hi]  (Go panics unless 0 <= lo <= hi <= len) *)
 Definition slice (b : bytes) (lo hi : Z) : res bytes :=
   if (0 <=? lo) && (lo <=? hi) && (hi <=? blen b)
@@ -198,13 +200,19 @@ Definition verdict_eqb (x y : verdict) : bool :=
   | _, _ => false
   end.
 
-(* decidable form of intro_ok *)
+(* decidable form of intro_ok (nested `if`s: vm_compute is eager in the
+   arguments of &&, and `sub e 46 n` must not be built for a bogus n) *)
 Definition intro_ok_b (ua_valid : bytes -> bool) (dc : config) (m : intro_msg) : bool :=
   let e := im_extra m in
-  negb (im_mirror m =? cfg_mirror dc) && (cfg_min_version dc <=? im_version m)
-  && (42 <=? blen e) && bytes_eqb (sub e 0 33) (cfg_pubkey dc)
-  && (2 <=? le_val (sub e 33 4)) && (1024 <=? le_val (sub e 37 4)) && (le_val (sub e 41 1) <=? 6)
-  && (46 <=? blen e)
-  && (let n := le_val (sub e 42 4) in
-      (n <=? 256) && (46 + n <=? blen e) && ua_valid (sub e 46 n)
-      && ((blen e =? 46 + n) || (32 <=? blen e - (46 + n)))).
+  if negb (im_mirror m =? cfg_mirror dc) && (cfg_min_version dc <=? im_version m)
+     && (42 <=? blen e) && (46 <=? blen e)
+  then
+    if bytes_eqb (sub e 0 33) (cfg_pubkey dc)
+       && (2 <=? le_val (sub e 33 4)) && (1024 <=? le_val (sub e 37 4)) && (le_val (sub e 41 1) <=? 6)
+    then
+      let n := le_val (sub e 42 4) in
+      if (n <=? 256) && (46 + n <=? blen e)
+      then ua_valid (sub e 46 n) && ((blen e =? 46 + n) || (32 <=? blen e - (46 + n)))
+      else false
+    else false
+  else false.
